@@ -10,6 +10,8 @@ import subprocess
 import sys
 
 VERIF = os.path.dirname(os.path.dirname(os.path.abspath(__file__)))
+# SEED_REPO: a scratch worktree / snapshot of /repo to patch instead of /repo itself (the checks then run with VERIF_REPO)
+REPO = os.environ.get('SEED_REPO', '/repo')
 
 
 def sh(cmd, **kw):
@@ -17,34 +19,47 @@ def sh(cmd, **kw):
 
 
 def main():
-    want = sys.argv[1:]
+    args = sys.argv[1:]
+    every = 1
+    if '--every' in args:
+        i = args.index('--every')
+        every = int(args[i + 1])
+        del args[i:i + 2]
+    offset = 0
+    if '--offset' in args:
+        i = args.index('--offset')
+        offset = int(args[i + 1])
+        del args[i:i + 2]
+    want = args
     rows = []
     seeds = sorted(d for d in os.listdir(os.path.join(VERIF, 'seeded')) if os.path.isfile(os.path.join(VERIF, 'seeded', d, 'patch.diff')))
-    if sh('git -C /repo status --porcelain').stdout.strip():
+    if sh(f'git -C {REPO} status --porcelain').stdout.strip():
         print('refusing: /repo is not clean')
         return 2
-    for sd in seeds:
+    for k, sd in enumerate(seeds):
         if want and not any(sd.startswith(w) for w in want):
+            continue
+        if k % every != offset % every:
             continue
         meta = json.load(open(os.path.join(VERIF, 'seeded', sd, 'meta.json')))
         patch = os.path.join(VERIF, 'seeded', sd, 'patch.diff')
         checks = [c for c in meta.get('detected_by', []) if c]
-        if sh(f'git -C /repo apply {patch}').returncode != 0:
+        if sh(f'git -C {REPO} apply {patch}').returncode != 0:
             rows.append((sd, 'no', '-'))
             print(sd, 'does not apply', flush=True)
             continue
         try:
             res = []
             for c in checks:
-                r = sh(f'{VERIF}/check {c} --tier quick', env=dict(os.environ, VERIF_MAX_REPORT='3'))
+                r = sh(f'{VERIF}/check {c} --tier quick', env=dict(os.environ, VERIF_MAX_REPORT='3', VERIF_REPO=REPO))
                 res.append(f'{c}:' + ('detected' if r.returncode == 1 and 'VIOLATION' in r.stdout else ('MISSED' if r.returncode == 0 else f'broken({r.returncode})')))
         finally:
-            sh('git -C /repo checkout -- .')
+            sh(f'git -C {REPO} checkout -- .')
             sh(f'git -C {VERIF} checkout -- evidence replays 2>/dev/null')
             sh(f'git -C {VERIF} clean -fdq replays')
         rows.append((sd, 'yes', ' '.join(res)))
         print(sd, ' '.join(res), flush=True)
-    head = sh('git -C /repo log --format=%h -1').stdout.strip()
+    head = sh(f'git -C {REPO} log --format=%h -1').stdout.strip()
     with open(os.path.join(VERIF, 'seeded', 'STATUS.md'), 'w') as f:
         f.write(f'# Seeded changes against /repo {head} (quick tier of the checks named in meta.json)\n\n| seed | applies | result |\n|---|---|---|\n')
         for r in rows:
